@@ -195,6 +195,45 @@ def run_fan_in(chk, spec):
 			J.check_join(chk, chk.pid, "sampled", how, small, big, ["r"], ["k"], key_mode=spec["key_mode"], expect="many_to_many" if spec["expect"] == "many_to_one" else spec["expect"], label=f"fan-out-{m}", sig=("fan-in", how, m, "big-right", spec["expect"]))
 
 
+def run_history_keys(chk, spec):
+	"""key vectors and operand tables with a history: a key made by Vector.new and written to afterwards; an aggregate result whose key column was written to through its
+	handle (so that group keys repeat): the join is that of the cells they hold now"""
+	import warnings
+	how = spec["how"]
+	with warnings.catch_warnings():
+		warnings.simplefilter("ignore")
+		what = spec["what"]
+		if what == "vector-new-key":
+			L = Table({"lid": [0, 1, 2, 3], "p": ["a", "b", "c", "d"]})
+			R = Table({"r": [1, 2, 3], "rid": [10, 20, 30]})
+			k = Vector.new(1, 4)
+			first = call({"inner": L.inner_join, "left": L.join, "full": L.full_join}[how], R, k, "r", expect="many_to_many") if spec["join_first"] else None
+			k[1] = 2
+			k[3] = 9
+			cur = list(k._underlying)
+			o = call({"inner": L.inner_join, "left": L.join, "full": L.full_join}[how], R, k, "r", expect="many_to_many")
+			chk.judged("sampled", ("history-keys", what, how, spec["join_first"]))
+			if not o.ok:
+				chk.fail("the join is computed for every admissible input", f"join/raises/{how}/vector-new-key/{type(o.exc).__name__}", f"{spec!r}: {o!r}")
+				return
+			ln, lc = J.cells(L)
+			rn, rc = J.cells(R)
+			exp, _ = J.expected_rows(how, lc, rc, J.rows_from([cur], 4), J.rows_from([rc[0]], 3))
+			got = J.result_rows(o.value)[1]
+			if not J.rows_same(got, exp):
+				chk.fail("join rows equal the nested-loop definition, in the documented order", f"join/{J.describe_diff(got, exp)}/{how}/vector-new-key-written-afterwards", f"{spec!r}: key vector now {cur!r}: rows {short(got, 200)} vs model {short(exp, 200)}")
+		else:
+			sales = Table({"region": ["n", "s", "w", "n"], "amt": [1, 2, 3, 4]})
+			agg = sales.aggregate(over="region", sum_over="amt")
+			kc = agg["region"]
+			kc[0] = kc._underlying[1]        # group keys now repeat: 's', 's', 'w'
+			X = Table({"rg": ["s", "w", "q", "s"], "xid": [1, 2, 3, 4]})
+			if spec["side"] == "right":
+				J.check_join(chk, chk.pid, "sampled", how, X, agg, ["rg"], ["region"], key_mode=spec["key_mode"], expect="many_to_many", label="aggregate-result-key-written-by-handle", sig=("history-keys", what, how, "right"), strict=True)
+			else:
+				J.check_join(chk, chk.pid, "sampled", how, agg, X, ["region"], ["rg"], key_mode=spec["key_mode"], expect="many_to_many", label="aggregate-result-key-written-by-handle", sig=("history-keys", what, how, "left"), strict=True)
+
+
 def run_columnless_operand(chk, spec):
 	"""a table without columns (what a join returns when nothing matched) has no rows: joined - by a detached empty key vector - to a table that has rows,
 	every row of that table is unmatched, so a left join from it and a full join on either side return exactly its rows"""
@@ -220,7 +259,7 @@ def run_columnless_operand(chk, spec):
 		chk.fail("every row of a table joined to a table without rows comes back once", f"join/rows-lost/columnless-operand/{form}", f"{spec!r}: {form} gave {short(got if got is not None else r, 160)}, expected the rows of T {exp!r}")
 
 
-RUNNERS = {"fan_in": run_fan_in, "columnless_operand": run_columnless_operand, "unique_keys_expect": c09.run_unique_keys_expect, "repeated_name_after_other_table": c09.run_repeated_name_after_other_table, "crossed_and_kept": c09.run_crossed_and_kept, "special_keys": c09.run_special_keys, "label_accessor": c09.run_label_accessor, "repeated_key_column": c09.run_repeated_key_column, "empty_chain": c09.run_empty_chain, "self_join": c09.run_self_join, "derived_right": c09.run_derived_right, "join": run_join, "exhaustive": c09.run_exhaustive, "history": run_history, "relations": run_relations, "unmatched_order": run_unmatched_order, "chain": run_chain}
+RUNNERS = {"history_keys": run_history_keys, "fan_in": run_fan_in, "columnless_operand": run_columnless_operand, "unique_keys_expect": c09.run_unique_keys_expect, "repeated_name_after_other_table": c09.run_repeated_name_after_other_table, "crossed_and_kept": c09.run_crossed_and_kept, "special_keys": c09.run_special_keys, "label_accessor": c09.run_label_accessor, "repeated_key_column": c09.run_repeated_key_column, "empty_chain": c09.run_empty_chain, "self_join": c09.run_self_join, "derived_right": c09.run_derived_right, "join": run_join, "exhaustive": c09.run_exhaustive, "history": run_history, "relations": run_relations, "unmatched_order": run_unmatched_order, "chain": run_chain}
 RUNNERS["recompute"] = recompute.runner("C10")
 
 
@@ -261,6 +300,12 @@ def run(chk):
 			for big_side in ("left", "right"):
 				for expect in ("many_to_many", "many_to_one"):
 					chk.case("fan_in", {"how": how, "matches": m, "big_side": big_side, "expect": expect, "key_mode": "name" if m % 2 else "vector"}, "fan-in")
+	for how in ("left", "full", "inner"):
+		for join_first in (False, True):
+			chk.case("history_keys", {"what": "vector-new-key", "how": how, "join_first": join_first}, "history-keys")
+		for side in ("right", "left"):
+			for key_mode in ("name", "vector"):
+				chk.case("history_keys", {"what": "aggregate-key-written", "how": how, "side": side, "key_mode": key_mode}, "history-keys")
 	for empty in ("Table()", "Table(())", "no-match-inner-join", "empty-left-join"):
 		for form in ("T.join(E)", "T.full_join(E)", "E.full_join(T)", "T.join(E) by handle"):
 			chk.case("columnless_operand", {"empty": empty, "form": form}, "columnless-operand")
